@@ -30,6 +30,8 @@ FoldChar(c) == IF IsUpper(c) THEN c + 32
                ELSE IF c = 8490 THEN 107          \* KELVIN SIGN folds with k
                ELSE IF c = 383 THEN 115           \* LATIN SMALL LETTER LONG S folds with s
                ELSE IF c = 201 THEN 233           \* E-acute
+               ELSE IF c \in {924, 956} THEN 181  \* capital and small mu fold with the micro sign (an orbit of three)
+               ELSE IF c \in {914, 976} THEN 946  \* capital beta and the beta symbol fold with small beta
                ELSE c
 Fold(s) == [i \in 1..Len(s) |-> FoldChar(s[i])]
 EqualFold(a, b) == Fold(a) = Fold(b)
